@@ -174,6 +174,21 @@ type Frame struct {
 	// map-range summarisation barrier
 	barrier *mapBarrier
 	deferd  bool
+	named   map[string]namedVal // source-level names (from DebugRef), copy-on-write
+}
+
+type namedVal struct {
+	t  *Term
+	ty types.Type
+}
+
+func setNamed(m map[string]namedVal, k string, t *Term, ty types.Type) map[string]namedVal {
+	n := make(map[string]namedVal, len(m)+1)
+	for a, b := range m {
+		n[a] = b
+	}
+	n[k] = namedVal{t, ty}
+	return n
 }
 
 type mapBarrier struct {
@@ -195,6 +210,7 @@ type State struct {
 	iters   map[ssa.Value]*iterInfo
 	initMod bool
 	dead    bool
+	idx     []*Term // index terms read on this path (instantiation candidates)
 }
 
 func newState() *State {
@@ -211,6 +227,7 @@ func (s *State) clone() *State {
 		allocd:  append([]*Term(nil), s.allocd...),
 		iters:   make(map[ssa.Value]*iterInfo, len(s.iters)),
 		initMod: s.initMod,
+		idx:     append([]*Term(nil), s.idx...),
 	}
 	for k, v := range s.env {
 		n.env[k] = v
@@ -295,6 +312,68 @@ func (s *State) substVar(v, g *Term) {
 			f.bindings[i] = Subst(b, m)
 		}
 	}
+}
+
+func (s *State) noteIndex(i *Term) {
+	if i.IsLit() {
+		return
+	}
+	for _, x := range s.idx {
+		if x == i {
+			return
+		}
+	}
+	if len(s.idx) < 12 {
+		s.idx = append(s.idx, i)
+	}
+}
+
+// instances: quantified facts of the path condition instantiated at the index
+// terms read on the path (a cheap, sound substitute for solver-side matching).
+func (s *State) instances() []*Term {
+	if len(s.idx) == 0 {
+		return nil
+	}
+	var out []*Term
+	seen := map[*Term]bool{}
+	var visit func(t *Term)
+	visit = func(t *Term) {
+		if t.Op == "forall" && len(t.Bound) == 1 && t.Bound[0].Sort == SInt && !t.open {
+			for _, c := range s.idx {
+				for _, cand := range []*Term{c, Sub(c, IntLit(1))} {
+					inst := Subst(t.Args[0], map[*Term]*Term{t.Bound[0]: cand})
+					if !inst.IsTrue() && !seen[inst] && !inst.open {
+						seen[inst] = true
+						out = append(out, inst)
+					}
+				}
+			}
+			return
+		}
+		if t.Op == "and" {
+			for _, a := range t.Args {
+				visit(a)
+			}
+		}
+		if t.Op == "=>" && t.Args[1].Op == "forall" {
+			// guarded fact: guard => forall ...
+			g := t.Args[0]
+			f := t.Args[1]
+			if len(f.Bound) == 1 && f.Bound[0].Sort == SInt && !f.open {
+				for _, c := range s.idx {
+					inst := Implies(g, Subst(f.Args[0], map[*Term]*Term{f.Bound[0]: c}))
+					if !inst.IsTrue() && !seen[inst] && !inst.open {
+						seen[inst] = true
+						out = append(out, inst)
+					}
+				}
+			}
+		}
+	}
+	for _, t := range s.pc {
+		visit(t)
+	}
+	return out
 }
 
 func (s *State) lw() *Term { return Sub(s.lwBase, IntLit(s.lwOff)) }
